@@ -222,6 +222,8 @@ def gen_case(rng, thorough=False):
     if len(s["winds"]) >= 2 and rng.random() < 0.5:
         s["winds"][1][1] = (s["winds"][0][1] + 180.0) % 360.0               # opposing
         s["winds"][1][0] = max(s["winds"][1][0], 30.0)
+    if len(s["winds"]) >= 2 and rng.random() < 0.25:
+        s["relabel_seed"] = rng.getrandbits(30)        # the winds' quantities displayed in other units (in place, magnitudes untouched)
     # base steps at or below the default only: above it the error is not yet in its asymptotic (first-order) regime -
     # the h and h^2 terms have opposite signs for speed and the error toward the reference is not monotone in h
     # (measured: 1.6e-2, 3.8e-2 ft/s at 2 ft, 1 ft) - and the statement speaks of refining the step
